@@ -143,8 +143,8 @@ pub fn check_entry(e: &ZooEntry) -> Result<usize, Fail> {
         if w.get("min").is_some() {
             let skip_min = w["min_to_ub"].as_bool() == Some(true); // open known finding C15 min-to-ub-unsigned
             if !skip_min && !same_bound(&g["min"], &w["min"]) {
-                // unsigned types show a missing lower bound as 0
-                if !(w["min"].is_null() && g["min"].as_i64() == Some(0)) {
+                // unsigned types show a missing lower bound as 0, signed ones as i64::MIN
+                if !(w["min"].is_null() && (g["min"].as_i64() == Some(0) || g["min"].as_i64() == Some(i64::MIN))) {
                     bad = Some("min".into());
                 }
             }
